@@ -128,6 +128,9 @@ class TocRenderer:
                                  has_title_page=has_title_page)
         if retcode == 0:
             shutil.move(finalpath, pdfpath)
+        elif safe_pdfpath != pdfpath:
+            # no TOC: the document itself must still be where the caller asked for it
+            shutil.move(safe_pdfpath, pdfpath)
         if os.path.exists(tocpath):
             os.unlink(tocpath)
         return retcode
